@@ -411,7 +411,7 @@ theorem parseExpr_len {ts : List (Tok α)} {e : Expr α} {rest : List (Tok α)}
 /-- the position of a clause keyword in a query (0: not a clause keyword) -/
 def rank : Kw → Nat
   | .from => 1 | .where => 2 | .group => 3 | .having => 4 | .order => 5 | .limit => 6 | .offset => 7
-  | .union => 8 | .except => 8 | .intersect => 8
+  | .union => 8 | .except => 8 | .intersect => 8 | .for_ => 9
   | _ => 0
 
 /-- the rest begins with nothing, a closing parenthesis, or a clause keyword of position ≥ i -/
